@@ -15,7 +15,11 @@ var EqPlainTags = []string{"_A", "_B", "NOTE", "PLAC", "NAME", "TYPE", "OCCU"}
 var EqEventTags = []string{"BIRT", "DEAT", "BURI", "BAPM", "RESI", "EVEN"}
 var EqPlainValues = []string{"", "x", "y", "Sydney", "John /Smith/", "Sydney, Australia"}
 var EqDateValues = []string{"3 Sep 1943", "03 sep 1943", "Sep 1943", "1943", "Abt. 1943", "Bef. Oct 1943", "Bef. 1950", "Aft. 1900", "Aft. 1920",
-	"Bet. 1900 and 1910", "(phrase)", "(other phrase)", "garbage", "", "4 Sep 1943", "Abt. 3 Sep 1943"}
+	"Bet. 1900 and 1910", "(phrase)", "(other phrase)", "garbage", "", "4 Sep 1943", "Abt. 3 Sep 1943",
+	// values on the edge of validity: a year of zero (parses without an error and is still not a date), impossible
+	// days, one good end, a range that runs backwards, the first and last day of the calendar
+	"0", "0000", "Abt. 0", "Bet. 0 and 0", "Bet. 0 and 1900", "Bet. 3 Sep 1900 and 0", "Jan 0", "31 Feb 1900", "Bet. 1900 and garbage",
+	"99999", "1 Jan 0001", "31 Dec 9999", "Bet. 1950 and 1900", "from 1900 to 1910"}
 var EqUIDValues = []string{"EE13561DDB204985BFFDEEBF82A5226C5B2E", "EE13561DDB204985BFFDEEBF82A5226C", "ee13561ddb204985bffdeebf82a5226c",
 	"6FA1B7A6C32B4BA0B8E2D9A3B1F4C5D7", "not-a-uuid", "", "EE13561DDB204985BFFDEEBF82A5226CFFFF"}
 
